@@ -260,8 +260,11 @@ def run_shard(shard, rec):
         if shard.get('sample'):
             random.Random(shard.get('seed', 0)).shuffle(combos)
             combos = combos[:shard['sample']]
-        for (m, t) in combos:
-            for op in ('>=',) if (rec.tier == 'quick' or shard.get('sample')) else ('>=', '>', '='):
+        for ci, (m, t) in enumerate(combos):
+            # the quick tier runs '=' (every pair exactly on the threshold must be returned) for every
+            # second combination besides '>='
+            quick_ops = ('>=', '=') if ci % 2 == 0 else ('>=',)
+            for op in quick_ops if (rec.tier == 'quick' or shard.get('sample')) else ('>=', '>', '='):
                 case = {'gen': 'w2', 'S': S, 'measure': m, 'threshold': t, 'comp_op': op}
                 st = run_case(case, rec, ssj, views)
                 rec.case(sig=('w2', S, m, t, op), nontrivial=bool(st and st.get('required')))
